@@ -280,12 +280,23 @@ def known_findings():
     return json.load(open(p)).get("findings", [])
 
 
-def match_known(prop, line):
+def match_known(ctx, mod, prop, line, impl_out, model_out):
+    """A recorded (not repaired) finding suppresses a mismatch only when the op matches its pattern AND the implementation
+    behaves exactly as recorded: if the finding names an `as_is_op` prefix, the model driver is asked for the recorded
+    (deviating) behaviour and the implementation must equal it — any other deviation on the same input is still a violation."""
     for f in known_findings():
         if f.get("status") != "known" or f.get("property") != prop:
             continue
-        if re.search(f["op_pattern"], line):
-            return f
+        if not re.search(f["op_pattern"], line):
+            continue
+        if f.get("as_is_prefix"):
+            try:
+                rec = run_model(ctx, [f["as_is_prefix"] + line])[0]
+            except BrokenCheck:
+                continue
+            if rec != impl_out:
+                continue
+        return f
     return None
 
 
@@ -305,9 +316,11 @@ def report(ctx, kind, detail, no_input=False):
 
 
 def compare_streams(ctx, mod, lines, model_out, impl_out, cfg, crashed=None, max_report=3):
-    """Diff model and implementation outputs; apply the property predicate; report."""
-    nrep = 0
+    """Diff model and implementation outputs; apply the property predicate; report.
+    Mismatches on which the property predicate itself fails are reported first (up to max_report); if the
+    predicate holds on every mismatch a single no-failing-input-found violation names the correspondence."""
     label = "%s mask=%s %s" % (cfg[0], cfg[1] or "none", cfg[2])
+    failing, benign, crash_at = [], [], None
     for i, ln in enumerate(lines):
         io = impl_out[i] if i < len(impl_out) else None
         mo = model_out[i]
@@ -316,27 +329,38 @@ def compare_streams(ctx, mod, lines, model_out, impl_out, cfg, crashed=None, max
         if io == "unavailable" and hasattr(mod, "unavailable_ok") and mod.unavailable_ok(ctx, cfg, ln):
             ctx.stats["unavailable_skipped"] = ctx.stats.get("unavailable_skipped", 0) + 1
             continue
-        kf = match_known(ctx.prop, ln)
+        if io is None:
+            crash_at = i
+            break
+        kf = match_known(ctx, mod, ctx.prop, ln, io, mo)
         if kf is not None:
             msg = "KNOWN-FINDING: property=%s %s" % (ctx.prop, kf["what"])
             if msg not in ctx.known:
                 ctx.known.append(msg)
                 print(msg, flush=True)
+            ctx.stats["known_finding_hits"] = ctx.stats.get("known_finding_hits", 0) + 1
             continue
-        if nrep >= max_report:
-            nrep += 1
-            continue
-        nrep += 1
-        if io is None:
-            report(ctx, "crash", {"op": ln, "config": label, "model": mo, "impl": None, "crash": crashed,
-                                  "explanation": "the implementation terminated abnormally on or before this operation"})
-            break
         fails, why = True, "implementation output differs from the model, which is proved equal to the specification"
         if hasattr(mod, "predicate"):
             fails, why = mod.predicate(ctx, ln, io, mo)
+        (failing if fails else benign).append((i, ln, io, mo, why))
+    nrep = 0
+    for (i, ln, io, mo, why) in failing[:max_report]:
         report(ctx, "corr:" + ln.split(" ")[0], {"op": ln, "config": label, "variant": cfg[0], "mask": cfg[1], "flavour": cfg[2],
-                                                 "model": mo, "impl": io, "predicate_fails": fails, "explanation": why},
-               no_input=not fails)
+                                                 "model": mo, "impl": io, "predicate_fails": True, "explanation": why,
+                                                 "mismatches_total": len(failing) + len(benign)})
+        nrep += 1
+    if crash_at is not None:
+        ln = lines[crash_at]
+        report(ctx, "crash", {"op": ln, "config": label, "variant": cfg[0], "mask": cfg[1], "flavour": cfg[2], "model": model_out[crash_at], "impl": None, "crash": crashed,
+                              "explanation": "the implementation terminated abnormally on this operation (every earlier operation had been answered)"})
+        nrep += 1
+    if not failing and crash_at is None and benign:
+        (i, ln, io, mo, why) = benign[0]
+        report(ctx, "corr:" + ln.split(" ")[0], {"op": ln, "config": label, "variant": cfg[0], "mask": cfg[1], "flavour": cfg[2], "model": mo, "impl": io,
+                                                 "predicate_fails": False, "explanation": why, "mismatches_total": len(benign),
+                                                 "correspondence": "corr:" + ln.split(" ")[0]}, no_input=True)
+        nrep += 1
     return nrep
 
 
